@@ -4,6 +4,9 @@ import (
 	"bytes"
 	"encoding/json"
 	"fmt"
+	"net/http/httptest"
+	"net/url"
+	"regexp"
 	"sort"
 	"strings"
 	"time"
@@ -14,6 +17,8 @@ import (
 	"github.com/emitter-io/emitter/verif/core"
 	"github.com/emitter-io/emitter/verif/tlc"
 )
+
+var keyInPage = regexp.MustCompile(`key    : ([A-Za-z0-9_-]{32})`)
 
 type parent struct {
 	Kind    string   `json:"kind"`
@@ -229,6 +234,50 @@ func RunC11(c *core.Ctx) {
 				return
 			}
 			c.Add("direct_createkey_calls", 1)
+			// the HTTP key generation page itself (POST form -> keygenForm -> CreateKey): same decision, and a key with
+			// exactly the ticked permissions, the requested channel and expiry
+			if typ := strings.Join(cs.Req.Type, ""); !strings.ContainsAny(typ, "x") {
+				form := url.Values{"key": {pk}, "channel": {chName}}
+				for letter, field := range map[byte]string{'r': "sub", 'w': "pub", 's': "store", 'l': "load", 'p': "presence", 'e': "extend"} {
+					if strings.IndexByte(typ, letter) >= 0 {
+						form.Set(field, "on")
+					}
+				}
+				if t := ttlOf(cs.Req.TTL); t != 0 {
+					form.Set("ttl", fmt.Sprint(t))
+				}
+				req := httptest.NewRequest("POST", "/keygen", strings.NewReader(form.Encode()))
+				req.Header.Set("Content-Type", "application/x-www-form-urlencoded")
+				rec := httptest.NewRecorder()
+				w.b.Svc.VerifKeygen().HTTP()(rec, req)
+				m := keyInPage.FindStringSubmatch(rec.Body.String())
+				if (m != nil) != (cs.Want.Status == 200) {
+					fail(fmt.Sprintf("the HTTP key generation page issued a key = %v, the property prescribes status %d", m != nil, cs.Want.Status))
+					return
+				}
+				if m != nil {
+					hk, err := w.b.Cipher.DecryptKey([]byte(m[1]))
+					if err != nil {
+						fail("the key shown by the HTTP key generation page does not decrypt")
+						return
+					}
+					if got := letters(hk.Permissions()); strings.Join(got, "") != strings.Join(sorted(cs.Want.Perms), "") || hk.IsMaster() {
+						fail(fmt.Sprintf("the HTTP key generation page issued a key with permissions %v (master %v), must be %v", got, hk.IsMaster(), sorted(cs.Want.Perms)))
+						return
+					}
+					ref := security.Key(make([]byte, 24))
+					ref.SetTarget(cs.Want.Target.String())
+					if !bytes.Equal(ref[12:15], hk[12:15]) || !bytes.Equal(ref[16:20], hk[16:20]) || hk.Contract() != w.b.Lic.Contract() || hk.Signature() != w.b.Lic.Signature() {
+						fail(fmt.Sprintf("the HTTP key generation page issued a key that does not target %q under the parent's contract", cs.Want.Target.String()))
+						return
+					}
+					if (cs.Want.Expiry == "none") != hk.Expires().Equal(time.Unix(0, 0).UTC()) {
+						fail(fmt.Sprintf("the HTTP key generation page issued a key expiring %v, requested %s", hk.Expires(), cs.Want.Expiry))
+						return
+					}
+				}
+				c.Add("http_keygen_form_posts", 1)
+			}
 		}
 		if cs.Want.Status != 200 {
 			return
